@@ -26,10 +26,12 @@ Proof. exact pure_cancel_prog. Qed.
 Theorem c15_pure_cancel_views : forall (dbg : bool) p, wf_pure p ->
   exists p', cancel_prog p = Ok p' /\ long_amount dbg p' = Ok (long_f p mod 2) /\ short_amount dbg p' = Ok 0.
 Proof. exact pure_cancel_views. Qed.
-(* ... and the SDK pool, which has NO override and runs the trait's default through signed
-   deltas, never fails on a pure pool and returns the identical pool *)
-Theorem c15_pure_cancel_sdk_eq : forall (dbg : bool) p, wf_pure p -> cancel_sdk dbg p = cancel_prog p.
-Proof. exact pure_cancel_sdk. Qed.
+(* ... the SDK pool carries the same override: identical result on EVERY pool ... *)
+Theorem c15_sdk_cancel_eq_prog : forall (dbg : bool) p, cancel_sdk dbg p = cancel_prog p.
+Proof. exact sdk_cancel_eq_prog. Qed.
+(* ... and the trait's default (through signed deltas) never fails on a pure pool and returns the identical pool *)
+Theorem c15_pure_cancel_default_eq : forall (dbg : bool) p, wf_pure p -> cancel_default dbg p = cancel_prog p.
+Proof. exact pure_cancel_default. Qed.
 
 (* HISTORY FORM: over any sequence of operations (either side, both sides, netting; failed
    operations leave the pool as it was) a pure pool stays well-formed and its stored total
@@ -42,6 +44,9 @@ Proof. exact pure_history. Qed.
 Theorem c15_pure_sdk_eq_prog : forall (dbg : bool) ops p, wf_pure p ->
   run true dbg p ops = run false dbg p ops.
 Proof. exact pure_sdk_eq_prog. Qed.
+(* since the SDK override: on ALL pools (two-token ones included, any amounts) *)
+Theorem c15_sdk_eq_prog : forall (dbg : bool) ops p, run true dbg p ops = run false dbg p ops.
+Proof. intros. apply sdk_eq_prog. Qed.
 
 (* two-token pools, for contrast: netting removes min(l, s) from both sides *)
 Theorem c15_impure_cancel : forall p, pure p = false -> in_range p ->
@@ -51,19 +56,20 @@ Theorem c15_impure_cancel : forall p, pure p = false -> in_range p ->
     (long_f p' = 0 \/ short_f p' = 0) /\ long_f p' - short_f p' = long_f p - short_f p.
 Proof. exact impure_cancel_prog. Qed.
 
-(* reported for C40: on two-token pools the SDK's default netting fails exactly when the
-   netted amount exceeds i128::MAX, where the program's override succeeds *)
-Theorem c15_sdk_cancel_impure_agrees : forall (dbg : bool) p, pure p = false -> in_range p ->
-  Z.min (long_f p) (short_f p) <= 2 ^ 127 - 1 -> cancel_sdk dbg p = cancel_prog p.
-Proof. exact impure_cancel_sdk_agrees. Qed.
-Theorem c15_sdk_cancel_impure_fails : forall (dbg : bool) p, pure p = false -> in_range p ->
-  2 ^ 127 <= Z.min (long_f p) (short_f p) -> cancel_sdk dbg p = Err E_CONV.
-Proof. exact impure_cancel_sdk_fails. Qed.
-Theorem c15_sdk_cancel_witness :
+(* why the override matters: on two-token pools the trait's DEFAULT netting fails exactly when the
+   netted amount exceeds i128::MAX, where the override succeeds (the SDK pool ran this default until
+   fix c40-sdk-pool-cancel-override) *)
+Theorem c15_default_cancel_impure_agrees : forall (dbg : bool) p, pure p = false -> in_range p ->
+  Z.min (long_f p) (short_f p) <= 2 ^ 127 - 1 -> cancel_default dbg p = cancel_prog p.
+Proof. exact impure_cancel_default_agrees. Qed.
+Theorem c15_default_cancel_impure_fails : forall (dbg : bool) p, pure p = false -> in_range p ->
+  2 ^ 127 <= Z.min (long_f p) (short_f p) -> cancel_default dbg p = Err E_CONV.
+Proof. exact impure_cancel_default_fails. Qed.
+Theorem c15_default_cancel_witness :
   let p := mkp 0 (2 ^ 128 - 1) (2 ^ 127) in
   pure p = false /\ in_range p /\
-  cancel_prog p = Ok (mkp 0 (2 ^ 127 - 1) 0) /\ cancel_sdk true p = Err E_CONV.
-Proof. exact sdk_cancel_witness. Qed.
+  cancel_prog p = Ok (mkp 0 (2 ^ 127 - 1) 0) /\ cancel_default true p = Err E_CONV /\ cancel_sdk true p = cancel_prog p.
+Proof. exact default_cancel_witness. Qed.
 
 (* non-vacuity *)
 Example c15_ex_wf : wf_pure (mkp 1 (2 ^ 128 - 1) 0) /\ wf_pure (mkp 255 0 0).
